@@ -45,8 +45,8 @@ def apply_mutant(m, root):
                 return tmp, f"SKIP anchor text occurs {src.count(old)} times in {rel}"
             open(path, "w").write(src.replace(old, new))
             try:
-                py_compile.compile(path, doraise=True, cfile=os.devnull)
-            except py_compile.PyCompileError as e:
+                compile(open(path).read(), path, "exec")
+            except SyntaxError as e:
                 return tmp, f"BROKEN mutant does not compile: {e}"
         return tmp, None
     except Exception as e:  # noqa
